@@ -65,6 +65,12 @@ check("C12", "model_checking",
       "what a track whose scheduled resume can never happen should report is not fixed by the statement beyond 'one of the five states' (reference: Paused); partition independence of these behaviours is C11's subject.",
       "DESIGN.md §3 C12")
 
+check("C11", "exploration",
+      "exhaustive enumeration of callback partitions (all 2^7 compositions of 8 frames) x internal buffer sizes x channel counts per fixed-parameter scene, each rendering compared with a reference rendering",
+      "28 fixed-parameter scenes (static sounds at several rates, loop, pan, reverse; streaming sounds; nested tracks; send tracks with stateful effects; every built-in effect including delays shorter than a chunk and delays with effects in the feedback loop; spatial track) x internal buffer size {1,2,3,4,5,7,8,16,64,4096} x ALL 128 compositions of 8 frames into callbacks x channels {1,2,3}, plus 200-frame (700 for the reverb) runs with partitions {all 1, single callback, 7s, ibs-1, ibs+1, N-1 then 1, 3 then rest} (thorough: more). Every rendering on the real mixer must equal the reference rendering (one callback, internal buffer = N): bit-for-bit for sound / mix / volume scenes, within 1e-6 for recursive effects and the spatial scene; mono = mean, extra channels silent; monitors: no panic, no allocation.",
+      "scenes exclude what the statement excludes (tweens in progress, commands in flight, delayed / clock-scheduled starts, modulators); exhaustive over partitions of 8 frames, representative partitions beyond.",
+      "DESIGN.md §3 C11")
+
 NOT_YET = {}
 
 def main():
